@@ -10,7 +10,7 @@ From TV Require Import Base.Prelude Base.Utf8 Base.Winnow Gen.Consts.
 From TV Require Import Model.Datetime Model.Numbers Model.Tree Model.Parse Model.Document Model.Write.
 From TV Require Import Model.WriteFloat Model.SerNum.
 From TV Require Import Proofs.NumbersRT_Lex Proofs.NumbersRT_Int Proofs.NumbersRT_Value
-                       Proofs.NumbersRT_Float Proofs.NumbersRT_Ser.
+                       Proofs.NumbersRT_Float Proofs.NumbersRT_Widen Proofs.NumbersRT_Ser.
 From TV Require Import Extract.Show.
 Require Import String.
 
@@ -150,16 +150,36 @@ Theorem C11_f64_roundtrip_under_std :
 Proof. exact (writer_roundtrip_finite classify64). Qed.
 Print Assumptions C11_f64_roundtrip_under_std.
 
+(* f32: the writer widens exactly (f64::from) and uses the f64 arm, so the text read back is the
+   widened value itself; widening keeps sign / NaN-ness / zero-ness and is injective on non-NaN
+   patterns, so narrowing the value read back gives the f32 that was written *)
 Theorem C11_f32_roundtrip_under_std :
   forall (is_inf : N -> bool) (shortest : N -> bytes) (back : fval -> N),
-    std_roundtrip_hyp classify32 is_inf shortest back ->
-    forall b, fc_nan (classify32 b) = false -> fc_zero (classify32 b) = false -> is_inf b = false ->
+    std_roundtrip_hyp classify64 is_inf shortest back ->
+    forall b, fc_nan (classify32 b) = false -> fc_zero (classify32 b) = false -> is_inf (widen32 b) = false ->
       exists f r d,
-        float (new_input (write_f32 b (shortest b))) = Ok f (end_input (write_f32 b (shortest b))) /\
-        parse_value_raw (write_f32 b (shortest b)) = POk (VScalar (SFloat f) r d) /\
-        back f = b.
-Proof. exact (writer_roundtrip_finite classify32). Qed.
+        float (new_input (write_f32 b (shortest (widen32 b))))
+        = Ok f (end_input (write_f32 b (shortest (widen32 b)))) /\
+        parse_value_raw (write_f32 b (shortest (widen32 b))) = POk (VScalar (SFloat f) r d) /\
+        back f = widen32 b.
+Proof. exact f32_roundtrip_from_f64. Qed.
 Print Assumptions C11_f32_roundtrip_under_std.
+
+Theorem C11_f32_widen_exact :
+  (forall b, fc_nan (classify64 (widen32 b)) = fc_nan (classify32 b)) /\
+  (forall b, fc_zero (classify64 (widen32 b)) = fc_zero (classify32 b)) /\
+  (forall b, fc_neg (classify64 (widen32 b)) = fc_neg (classify32 b)) /\
+  (forall a b, (a < p32)%N -> (b < p32)%N ->
+     fc_nan (classify32 a) = false -> fc_nan (classify32 b) = false -> widen32 a = widen32 b -> a = b).
+Proof. exact (conj widen32_nan (conj widen32_zero (conj widen32_neg widen32_inj))). Qed.
+Print Assumptions C11_f32_widen_exact.
+
+(* NaN and zero of an f32 take the same fixed-text arms as an f64 *)
+Theorem C11_f32_write_special :
+  forall b text, fc_nan (classify32 b) = true \/ fc_zero (classify32 b) = true ->
+    write_f32 b text = write_float (classify32 b) text.
+Proof. exact write_f32_special. Qed.
+Print Assumptions C11_f32_write_special.
 
 (* ---- serde widths --------------------------------------------------------------------------------------- *)
 Theorem C11_ser_checked :
@@ -245,6 +265,9 @@ Qed.
 Example ex_write_3 : write_f64 4613937818241073152 (str "3") = str "3.0".
 Proof. vm_compute. reflexivity. Qed.
 Example ex_write_f32_1 : write_f32 1065353216 (str "1") = str "1.0".       (* F2: 1.0f32 *)
+Proof. vm_compute. reflexivity. Qed.
+(* 7.038531e-26f32 (0x15ae43fd): written through its exact widening 0x3ab5c87fa0000000 *)
+Example ex_widen_witness : widen32 363742205 = 4230507875455205376%N.
 Proof. vm_compute. reflexivity. Qed.
 Example ex_write_neg_nan : write_f64 18444492273895866368 (str "NaN") = str "-nan".
 Proof. vm_compute. reflexivity. Qed.
